@@ -180,6 +180,38 @@ def pick_policy(rng, buf):
     return (k, None)
 
 
+def ref_decode(enc):
+    """Plain reading of a chunked stream with the documented leniencies only (size token read by Python's
+    int(token.strip(), 16), extensions after ';' ignored).  -> ('ok', body) | ('reject', why) | ('unknown',)
+    'unknown' = shapes this reading does not model (a bare CR or LF inside a size line, a negative size)."""
+    pos = 0
+    body = b''
+    while True:
+        eol = enc.find(b'\r\n', pos)
+        if eol < 0:
+            return ('reject', 'size line not terminated')
+        line = enc[pos:eol]
+        if b'\r' in line or b'\n' in line:
+            return ('unknown',)
+        tok = line.split(b';', 1)[0].strip()
+        try:
+            size = int(tok, 16)
+        except ValueError:
+            return ('reject', 'size field %r is not a number' % tok)
+        if size < 0:
+            return ('unknown',)
+        pos = eol + 2
+        if size == 0:
+            return ('ok', body)
+        data = enc[pos:pos + size]
+        if len(data) < size:
+            return ('reject', 'chunk data cut short')
+        if enc[pos + size:pos + size + 2] != b'\r\n':
+            return ('reject', 'chunk data not followed by CRLF')
+        body += data
+        pos += size + 2
+
+
 def check_one(ctx, enc, buf, pdesc, mode, expect, payload, fits, what, extra=''):
     """expect: 'exact' | 'reject' | 'any'"""
     dec = decode_wsgi if mode == 'wsgi' else decode_direct
@@ -196,6 +228,16 @@ def check_one(ctx, enc, buf, pdesc, mode, expect, payload, fits, what, extra='')
     if verdict == 'fault':
         ctx.violation(f'chunked:{what}:server-fault', f'{desc}: {val}', wit)
         return verdict
+    if verdict == 'accept':
+        # whatever was done to the framing: a body presented as complete must be what the stream, read plainly, says
+        ref = ref_decode(enc)
+        ctx.count('accepted_bodies_compared_with_plain_reading')
+        if ref[0] == 'reject':
+            ctx.violation('chunked:accepted-although-the-framing-has-no-plain-reading', f'{desc}: accepted {val[:40]!r} ({len(val)} bytes); plain reading: {ref[1]}', wit)
+            return verdict
+        if ref[0] == 'ok' and ref[1] != val:
+            ctx.violation('chunked:accepted-body-differs-from-plain-reading', f'{desc}: accepted {val[:40]!r} ({len(val)} bytes), plain reading gives {ref[1][:40]!r} ({len(ref[1])} bytes)', wit)
+            return verdict
     if expect == 'exact':
         if verdict == 'accept':
             if val != payload:
